@@ -29,6 +29,7 @@ CONSTANTS Tags, MaxDepth,        \* build expressions: ExprsUpTo(Tags, MaxDepth)
           Templates, Placements, PathKinds, Spellings,  \* observation / spelling dimensions (no influence on the expectation)
           TdLevels,              \* where the two template-data keys are written: package level, package level over a DIFFERENT
                                  \* top-level default (the header reads the package-effective value: most specific wins), top level only
+          SrcShapes,             \* one interface / two interfaces sharing the file / a method-less interface (no imports at all)
           FsStates               \* directory entries next to the config file named like bare tags / templates / the boilerplate file
 
 VARIABLES expr, shape, nl, fmt,  \* the case
@@ -37,7 +38,7 @@ VARIABLES expr, shape, nl, fmt,  \* the case
 vars == <<expr, shape, nl, fmt, pc, lines>>
 
 ASSUME PrintT(<<"OBSDIMS", ToJson([templ |-> Templates, place |-> Placements, pathkind |-> PathKinds, spelling |-> Spellings,
-                                   tdlevel |-> TdLevels, fs |-> FsStates])>>)
+                                   tdlevel |-> TdLevels, fs |-> FsStates, srcshape |-> SrcShapes])>>)
 
 AllExprs == ExprsUpTo(Tags, MaxDepth)
 
